@@ -56,7 +56,7 @@ def main():
         # entries with two or more periods: one alternative per relation class between them (buffer sizes, SyncPeriod
         # and alignment Skips depend on which period is the longer one and by how much)
         multi = len(e["params"] or []) >= 2
-        cfgs = pe.configs_for(e, tier, rng, max_alt=(4 if multi else 1) if tier == "quick" else (6 if multi else 4))
+        cfgs = pe.configs_for(e, tier, rng, max_alt=(6 if multi else 1) if tier == "quick" else (8 if multi else 4))
         for ci, cfg in enumerate(cfgs):
             caps = list(caps_all)
             if tier == "quick" and ci == 1:
@@ -64,7 +64,9 @@ def main():
             if tier == "thorough" and ci == 1:
                 caps = [0, 1, 2, max(cfg) + 1]
             for cap in caps:
-                cases.append(pe.Case(e, cfg, cap))
+                cs_ = pe.Case(e, cfg, cap)
+                cs_.extra = tier == "quick" and ci >= 2      # the further relation classes: a sample of lengths only
+                cases.append(cs_)
     # recording runs (with values, to estimate the warm-up of strategies)
     insts = []
     for c in cases:
@@ -109,7 +111,10 @@ def main():
         nin = len(c.inputs)
         is_default = c.cfg == c.entry["default"]
         lens = pe.lens_for(w, tier, nin, is_default)
-        if nin > 1:
+        if getattr(c, "extra", False):
+            keep = {0, 1, max(w, 0) - 1, max(w, 0), max(w, 0) + 1, max(w, 0) + 2, 2 * max(w, 0) + 2}
+            lens = [lv for lv in lens if lv[0] in keep]
+        elif nin > 1:
             lens += pe.unequal_lens(w, nin) if (tier == "thorough" or c.cap == 0) else []
         c.lens = lens
     # reduced-mode model checking of every recorded network
